@@ -32,7 +32,7 @@ type IterOp struct {
 	Cons string `json:"c,omitempty"`
 }
 
-var IterExcs = []string{"ValueError", "ValueError(\"v\")", "KeyError(\"k\")", "ZeroDivisionError", "TypeError(\"t\")", "IndexError", "RuntimeError(\"r\")"}
+var IterExcs = []string{"ValueError", "ValueError(\"v\")", "KeyError(\"k\")", "ZeroDivisionError", "TypeError(\"t\")", "IndexError"}
 var IterStops = []string{"StopIteration", "StopIteration()", "StopIteration(77)"}
 
 var IterConsumers = []string{
@@ -42,7 +42,7 @@ var IterConsumers = []string{
 }
 
 var iterWrappers = []string{"deleg", "map", "filter", "genexp", "zipl", "enum", "deleg"}
-var iterLeaves = []string{"gen", "gen", "gen", "iter", "iter", "seq", "list", "range", "tuple"}
+var iterLeaves = []string{"gen", "gen", "gen", "iter", "iter", "seq", "list", "range", "tuple", "genfin", "genleak"}
 
 // IterExclude lists features that must not be generated (known findings).
 type IterExclude map[string]bool
@@ -64,6 +64,9 @@ func GenIter(r *simrt.Rand, excl IterExclude) *IterProg {
 		if len(p.Prods) > 0 && r.Chance(1, 3) {
 			pr.Kind = pickFrom(iterWrappers, "prod:")
 			pr.Sub = r.Intn(len(p.Prods))
+			if p.Prods[pr.Sub].Kind == "genleak" {
+				pr.Kind = ""
+			}
 		}
 		if pr.Kind == "" {
 			pr.Kind = pickFrom(iterLeaves, "prod:")
@@ -73,7 +76,7 @@ func GenIter(r *simrt.Rand, excl IterExclude) *IterProg {
 			}
 		}
 		switch pr.Kind {
-		case "gen", "iter", "seq", "map", "filter", "genexp":
+		case "gen", "genfin", "iter", "seq", "map", "filter", "genexp":
 			if r.Chance(2, 5) {
 				if e := pickFrom(IterExcs, "exc:"); e != "" && !excl["fail"] {
 					pr.Fail = r.Intn(6)
@@ -97,6 +100,13 @@ func GenIter(r *simrt.Rand, excl IterExclude) *IterProg {
 			continue
 		}
 		g := r.Intn(len(p.Prods))
+		if p.Prods[g].Kind == "genleak" {
+			// a StopIteration leaking out of a generator body ends the
+			// generator in 3.4 and becomes RuntimeError after PEP 479: only
+			// direct next() is compared, with the two classes folded
+			p.Ops = append(p.Ops, IterOp{K: "next", G: g})
+			continue
+		}
 		switch x := r.Intn(10); {
 		case x < 4:
 			p.Ops = append(p.Ops, IterOp{K: "next", G: g})
@@ -209,6 +219,28 @@ def gen(tag, n, fail, exc):
     finally:
         log(tag, "fin")
     return tag * 100 + 99
+def genfin(tag, n, fail, exc):
+    log(tag, "start")
+    try:
+        i = 0
+        while i < n:
+            if i == fail:
+                log(tag, "raise")
+                raise exc
+            yield tag * 100 + i
+            i += 1
+        return tag * 100 + 98
+    finally:
+        log(tag, "fin1")
+        yield tag * 100 + 77
+        log(tag, "fin2")
+def genleak(tag, n):
+    src = iter(range(n))
+    log(tag, "start")
+    while True:
+        a = next(src)
+        yield tag * 100 + a
+        log(tag, "resumed")
 def deleg(tag, sub):
     log(tag, "dstart")
     try:
@@ -267,6 +299,10 @@ func (p *IterProg) Render() string {
 			switch pr.Kind {
 			case "gen":
 				e = fmt.Sprintf("gen(%d, %d, %d, %s)", pr.Tag, pr.N, pr.Fail, exc)
+			case "genfin":
+				e = fmt.Sprintf("genfin(%d, %d, %d, %s)", pr.Tag, pr.N, pr.Fail, exc)
+			case "genleak":
+				e = fmt.Sprintf("genleak(%d, %d)", pr.Tag, pr.N)
 			case "iter":
 				e = fmt.Sprintf("It(%d, %d, %d, %s, %s)", pr.Tag, pr.N, pr.Fail, exc, pr.Stop)
 			case "seq":
@@ -294,10 +330,20 @@ func (p *IterProg) Render() string {
 			}
 			w(fmt.Sprintf("%s = None\n%s = %s\nlog(%s, \"new\")", g, g, e, id))
 		case "next":
+			if p.Prods[op.G].Kind == "genleak" {
+				fmt.Fprintf(&b, "try:\n    log(%s, \"next\", next(%s))\nexcept (StopIteration, RuntimeError):\n    log(%s, \"ended\")\n", id, g, id)
+				break
+			}
 			w(fmt.Sprintf("log(%s, \"next\", next(%s))", id, g))
 		case "send":
 			w(fmt.Sprintf("log(%s, \"send\", %s.send(%d))", id, g, op.V))
 		case "probe":
+			if p.Prods[op.G].Kind == "genleak" {
+				for k := 0; k < 3; k++ {
+					fmt.Fprintf(&b, "try:\n    log(%s, \"probe\", next(%s))\nexcept (StopIteration, RuntimeError):\n    log(%s, \"ended\")\n", id, g, id)
+				}
+				break
+			}
 			w(fmt.Sprintf("log(%s, \"probe\", next(iter(%s)))", id, g))
 			w(fmt.Sprintf("log(%s, \"probe2\", next(iter(%s)))", id, g))
 		case "use":
